@@ -8,18 +8,17 @@ from vlib.verdict import Case
 
 PROPERTY = 'C19'
 MANIFEST = {
- 'level_text': 'Lean 4 theorems, kernel-checked, about a model of Irc.queueMsg/sendMsg/takeMsg/die/reset and IrcMsgQueue, for every interleaving of those calls with clock ticks, MOTD end, PONG, echo-message (un)acknowledgement and configuration changes, and for every chain of outFilters (arbitrary functions): multiset conservation (accepted = handed to the driver + dropped by a filter + lost + discarded by reset + still queued; refusal is an explicit False with no effect), fast queue first then the most urgent non-empty class and its head, per-class FIFO as list equations over whole histories (a rate-limited JOIN only moves to the back), a trace checker for throttle and JOIN-rate gaps that every trace passes plus its meaning spelled out, the driver is killed only with both queues empty once connected (after the repair of takeMsg), takeMsg satisfies the recursive equation of the code and a filter returning None consumes exactly its message, progress (clock past the limits => a take consumes a message) and a quitting bot drains in at most as many takes as messages wait and then closes; the one loss there is (known finding: a re-queued IrcMsg object is swallowed by the echo-emulation assert) is characterised exactly: lost only if the object was handed to the driver before, never when objects are fresh and filters return their argument or a new object, with a kernel-checked counter-example to the loss-free conservation law. Priority tables, the rate-limited command and the echo-emulated commands are re-extracted from /repo on every run and pinned by table lemmas. The model is tied to src/irclib.py by a differential run of seeded operation sequences on a real Irc object (return values, driver calls, filter log, discarded messages and the full queue/state dump after every operation), which also evaluates the property statement directly on the implementation to produce replays.',
- 'level_note': 'Trusted: Lean kernel; axioms propext/Classical.choice/Quot.sound only; harness/extractors/ircqueue.py; the correspondence harness (generator quality bounds what it sees); integer-valued virtual clock; stub driver whose reconnect() calls irc.reset() as SocketDriver.reconnect does; a second Irc stays registered so that _reallyDie does not clear the shared callback list. Modelled: IrcMsgQueue.enqueue/dequeue/__contains__/reset, Irc.queueMsg/sendMsg/takeMsg (fast queue, throttle, ping emission and ping time-out reconnect, outFilter chain with recursion on None, firewall on a raising filter, echo emulation tag/assert, zombie branch)/die/reset/_queueConnectMessages/_reallyDie (driver part), object identity of messages. Not modelled: _truncateMsg, labeled-response labels, server tags in message equality, the callbacks of real plugins (the Irc under test carries harness filter callbacks only), non-ASCII command upper-casing, negative or fractional rates, messages sent with sendMsg are outside the throttle/JOIN-rate claims (by design of the fast queue). Stated precondition of quit_drains: die() before the end of MOTD (afterConnect False) closes the connection at once by design.',
+ 'level_text': 'Lean 4 theorems, kernel-checked, about a model of Irc.queueMsg/sendMsg/takeMsg/die/reset and IrcMsgQueue, for every interleaving of those calls with clock ticks, MOTD end, PONG, echo-message (un)acknowledgement and configuration changes, and for every chain of outFilters (arbitrary functions): multiset conservation (accepted = handed to the driver + dropped by a filter + lost + discarded by reset + still queued; refusal is an explicit False with no effect), fast queue first then the most urgent non-empty class and its head, per-class FIFO as list equations over whole histories (a rate-limited JOIN only moves to the back), a trace checker for throttle and JOIN-rate gaps that every trace passes plus its meaning spelled out, the driver is killed only with both queues empty once connected (after the repair of takeMsg), takeMsg satisfies the recursive equation of the code and a filter returning None consumes exactly its message, progress (clock past the limits => a take consumes a message) and a quitting bot drains in at most as many takes as messages wait and then closes; after the repair of the echo emulation (the echo is now a tagged copy; a re-queued IrcMsg object used to be swallowed by the assertion) nothing is lost and the conservation law holds in full (no_loss, conservation_full: for callers handing over any objects any number of times and filters returning their argument or a new message); the tagged objects are only the echo copies made by the bot. Server tags are part of message equality (duplicate refusal). Priority tables, the rate-limited command and the echo-emulated commands are re-extracted from /repo on every run and pinned by table lemmas. The model is tied to src/irclib.py by a differential run of seeded operation sequences on a real Irc object (return values, driver calls, filter log, discarded messages and the full queue/state dump after every operation), which also evaluates the property statement directly on the implementation to produce replays.',
+ 'level_note': 'Trusted: Lean kernel; axioms propext/Classical.choice/Quot.sound only; harness/extractors/ircqueue.py; the correspondence harness (generator quality bounds what it sees); integer-valued virtual clock; stub driver whose reconnect() calls irc.reset() as SocketDriver.reconnect does; a second Irc stays registered so that _reallyDie does not clear the shared callback list. Modelled: IrcMsgQueue.enqueue/dequeue/__contains__/reset, Irc.queueMsg/sendMsg/takeMsg (fast queue, throttle, ping emission and ping time-out reconnect, outFilter chain with recursion on None, firewall on a raising filter, echo emulation tag/assert, zombie branch)/die/reset/_queueConnectMessages/_reallyDie (driver part), object identity of messages, server tags in message equality. Not modelled: _truncateMsg (the wire text of a message; C06), labeled-response labels, outFilters that call queueMsg/sendMsg themselves, the callbacks of real plugins (the Irc under test carries harness filter callbacks only), non-ASCII command upper-casing, negative or fractional rates, messages sent with sendMsg are outside the throttle/JOIN-rate claims (by design of the fast queue). Stated precondition of quit_drains: die() before the end of MOTD (afterConnect False) closes the connection at once by design.',
  'technique': 'Lean 4 proof (induction over operation sequences with invariants) + table extraction + differential correspondence',
  'design_ref': 'DESIGN.md §6 C19',
 }
 THEOREMS = ['C19.tables_ok', 'C19.classes_ok', 'C19.conservation', 'C19.conservation_life', 'C19.conservation_partial',
-            'C19.conservation_full_counterexample', 'C19.queueMsg_refused_iff', 'C19.queueMsg_refused_state',
+            'C19.no_loss', 'C19.conservation_full', 'C19.queueMsg_refused_iff', 'C19.queueMsg_refused_state',
             'C19.queueMsg_accepted', 'C19.priority', 'C19.fast_first', 'C19.fifo', 'C19.fifo_run',
             'C19.rates', 'C19.throttle_join_rate', 'C19.throttle_join_rate_fixed', 'C19.quit_drains',
             'C19.takeMsg_recursive', 'C19.filter_no_stall_fast', 'C19.filter_no_stall_queue',
-            'C19.lost_only_tagged', 'C19.tagged_were_sent', 'C19.no_stall', 'C19.quit_completes',
-            'C19.no_loss_fresh_objects', 'C19.conservation_fresh_objects']
+            'C19.lost_only_tagged', 'C19.tagged_are_echo_copies', 'C19.no_stall', 'C19.quit_completes']
 TRUSTED = ['Lean 4.33.0 kernel; axioms ⊆ {propext, Classical.choice, Quot.sound}',
            'harness/extractors/ircqueue.py (_high, _low, rate-limited command, echo-emulated commands → Gen/IrcQueue.lean)',
            'harness/c19.py generators, instrumentation (virtual clock, stub driver, recording outFilter callbacks), canonicalisation; hex line protocol',
@@ -33,7 +32,13 @@ ASSUMPTIONS = ['Python asserts enabled', 'integer-valued clock, non-negative int
                'messages short enough not to be truncated; no server tags; labeled-response not negotiated',
                'die() before afterConnect closes at once (by design; stated as hypothesis of quit_drains)']
 
-FINDING_REUSED = 'C19-reused-object-lost'
+FINDING_REUSED = 'C19-reused-object-lost'     # repaired in /repo b0e0eea; kept as a class name only
+
+def enc_tags(d):
+    """server tags as the model's sorted association list"""
+    if not d:
+        return '-'
+    return '+'.join(wire.enc(k) + '=' + wire.enc_opt(d[k]) for k in sorted(d))
 URGENT = ('PONG', 'MODE', 'KICK', 'NICK', 'PASS')
 BULK = ('PRIVMSG', 'NOTICE', 'JOIN', 'WHO', 'PING')
 PLAIN = ('QUIT', 'PART', 'TOPIC', 'CAP')
@@ -85,7 +90,8 @@ def make_callbacks(b, rules, log):
             if self.kind == 'drop':
                 return None
             if self.kind == 'rewrite':
-                return ircmsgs.IrcMsg(prefix=msg.prefix, command=self.newcmd, args=msg.args)
+                return ircmsgs.IrcMsg(prefix=msg.prefix, command=self.newcmd, args=msg.args,
+                                      server_tags=dict(msg.server_tags))
             return msg
 
     # applied in reversed(callbacks) order: EntryRec, rules…, ExitRec
@@ -130,7 +136,7 @@ class Impl(object):
     # ---- helpers
     def ser(self, m):
         s = self.serial.get(id(m))
-        return ('~' if s is None else str(s)) + '/' + wire.enc(m.prefix) + '/' + wire.enc(m.command) + '/' + wire.enc_list(m.args)
+        return ('~' if s is None else str(s)) + '/' + wire.enc(m.prefix) + '/' + wire.enc(m.command) + '/' + wire.enc_list(m.args) + '/' + enc_tags(m.server_tags)
 
     def sers(self, ms):
         ms = list(ms)
@@ -224,8 +230,9 @@ class Impl(object):
         if serial in self.objs:
             self.tags.add('reused-object')
             return self.objs[serial]
-        pfx, cmd, args = content
-        m = self.b.ircmsgs.IrcMsg(prefix=pfx, command=cmd, args=tuple(args))
+        pfx, cmd, args = content[:3]
+        tags = dict(content[3]) if len(content) > 3 and content[3] else None
+        m = self.b.ircmsgs.IrcMsg(prefix=pfx, command=cmd, args=tuple(args), server_tags=tags)
         self.objs[serial] = m
         self.serial[id(m)] = serial
         return m
@@ -387,13 +394,14 @@ class Impl(object):
                 self.fail('takeMsg went on after a filter chain produced %s' % self.ser(out))
                 continue
             if r is None:
-                reused = was_tagged or id(out) in self.delivered_ids
-                self.tags.add('lost-reused-object' if reused else 'lost')
+                self.tags.add('lost')
                 self.fail('accepted message %s was removed from the queue but never handed to the driver (takeMsg returned None)'
-                          % self.ser(src), FINDING_REUSED if reused else None)
+                          % self.ser(src))
             elif r is not out:
                 self.fail('takeMsg returned %s, not the filtered message %s' % (self.ser(r), self.ser(out)))
             else:
+                if id(out) in self.delivered_ids:
+                    self.tags.add('same-object-sent-again')
                 self.delivered_ids.add(id(out))
                 self.tags.add('take-fast' if fast else 'take-queue')
                 if not fast:
@@ -440,8 +448,9 @@ class Impl(object):
 # model side
 # ------------------------------------------------------------------------------------------
 def enc_content(serial, content):
-    pfx, cmd, args = content
-    return '%s/%s/%s/%s' % (serial, wire.enc(pfx), wire.enc(cmd), wire.enc_list(args))
+    pfx, cmd, args = content[:3]
+    tags = dict(content[3]) if len(content) > 3 and content[3] else {}
+    return '%s/%s/%s/%s/%s' % (serial, wire.enc(pfx), wire.enc(cmd), wire.enc_list(args), enc_tags(tags))
 
 def model_lines(ops, connect):
     """driver input lines for one case; `connect` = the connect messages of the real Irc"""
@@ -494,6 +503,9 @@ def gen_content(r):
     args = list(r.choice(ARGS))
     if cmd in ('PRIVMSG', 'NOTICE', 'privmsg', 'TAGMSG') and len(args) < 1:
         args = ['#a', 'x']
+    if r.random() < 0.25:
+        # client tags: part of message equality (duplicate refusal)
+        return ['', cmd, args, r.choice([{'+a': 'x'}, {'+a': 'y'}, {'+b': None}, {'+a': 'x', '+b': None}, {'label': 'L1'}])]
     return ['', cmd, args]
 
 def gen_rules(r):
